@@ -893,14 +893,14 @@ impl Handler<ConfigAsyncCmd> for ConfigActor {
                             op_time: now_millis_i64(),
                             op_user,
                         };
-                        Self::send_raft_request(&raft, req).await.ok();
+                        Self::send_raft_request(&raft, req).await?;
                     }
                 }
                 ConfigAsyncCmd::Delete(key) => {
                     let req = ClientRequest::ConfigRemove {
                         key: key.build_key(),
                     };
-                    Self::send_raft_request(&raft, req).await.ok();
+                    Self::send_raft_request(&raft, req).await?;
                 }
             }
             Ok(ConfigResult::NULL)
